@@ -537,7 +537,7 @@ ssize_t comp_read(zckCtx *zck, char *dst, size_t dst_size, bool use_dict) {
          * decompressing */
         if(finished_rd) {
             /* The file ended in the middle of a chunk */
-            set_error(zck, "Unexpected end of file in chunk %llu",
+            set_fatal_error(zck, "Unexpected end of file in chunk %llu",
                       (long long unsigned) zck->comp.data_idx->number);
             goto read_error;
         }
@@ -555,6 +555,10 @@ ssize_t comp_read(zckCtx *zck, char *dst, size_t dst_size, bool use_dict) {
         if(rb < rs) {
             zck_log(ZCK_LOG_DDEBUG, "EOF");
             finished_rd = true;
+            /* Nothing at all was read: there is nothing to hash or decode,
+             * the check above reports the premature end */
+            if(rb == 0)
+                continue;
         }
         if(zck->check_chunk_hash.ctx == NULL)
             if(!hash_init(zck, &(zck->check_chunk_hash),
